@@ -40,6 +40,10 @@ def prepare(dense=False):
     return sched.instrument(_mods(), dense=dense)
 
 
+def fallbacks():
+    return sched.fallbacks()
+
+
 def tname(i, cfg):
     return "K" if i == cfg["nthreads"] + 1 else f"T{i}"
 
@@ -178,7 +182,15 @@ def one_run(cfg, chooser, max_steps=5000):
         fns = {f"T{i}": req_thread(i) for i in range(1, cfg["nthreads"] + 1)}
         if cfg["closer"]:
             fns["K"] = closer
-        s = sched.Scheduler(chooser, on_event=rec, max_steps=max_steps)
+        def on_event(e):
+            if e["e"] != "point":
+                rec(e)
+            elif e["kind"] == "load" and e["func"] == "_get_conn":
+                # how the checkout obtains its queue reference: by the `self.pool.get(...)` expression itself
+                # ("inline") or by a separate statement executed before the get ("separate")
+                rec({"e": "load", "th": e["th"], "res": "inline" if e["inline"] else "separate"})
+
+        s = sched.Scheduler(chooser, on_event=on_event, max_steps=max_steps)
         try:
             s.run(fns)
         finally:
